@@ -661,7 +661,15 @@ class Progress(JupyterMixin, RenderHook):
             self.console.show_cursor(False)
             self._enable_redirect_io()
             self.console.push_render_hook(self)
-            self.refresh()
+            try:
+                self.refresh()
+            except BaseException:
+                # the with block is never entered, so __exit__ will not run: undo what start() did
+                self._started = False
+                self.console.show_cursor(True)
+                self._disable_redirect_io()
+                self.console.pop_render_hook()
+                raise
             if self.auto_refresh:
                 self._refresh_thread = _RefreshThread(self, self.refresh_per_second)
                 self._refresh_thread.start()
